@@ -90,3 +90,8 @@ Definition le_bytes (w : Z) : list Z := [word_byte w 0; word_byte w 1; word_byte
 Definition fill_bytes (address data size : Z) : list Z :=
   if fill_uses_write address size then repeat data (Z.to_nat size)
   else concat (repeat (le_bytes data) (Z.to_nat (size / 4))).
+
+(* the address of a per-core field as the library computes it from the bundled tables: the word stored in
+   sv.vcpu_base + block size * core + field offset *)
+Definition vcpu_addr (M : machine) (c : chip) (p off : Z) : Z :=
+  le_word (mem_range (M c) (sv_struct_base + sv_vcpu_base_offset) 4) + vcpu_struct_size * p + off.
